@@ -16,7 +16,7 @@ P = os.path.join(os.path.dirname(os.path.dirname(os.path.abspath(__file__))), "l
 K_ON = ("-- BEGIN F-C19 known\n", "-- END F-C19 known\n")
 K_OFF = ("/- BEGIN F-C19 known (disabled)\n", "END F-C19 known (disabled) -/\n")
 F_OFF = ("/- BEGIN F-C19 fixed\n", "END F-C19 fixed -/\n")
-F_ON = ("-- BEGIN F-C19 fixed\n", "-- END F-C19 fixed\n")
+F_ON = ("-- BEGIN F-C19 fixed\n", "-- END F-C19 fixed\n")   # NB: state `fixed` is in force since /repo 03364e3
 
 
 def swap(s, a, b):
